@@ -9,7 +9,9 @@
                                         countTagUsage, countTagValueUsage, collectTagValues,
                                         (the range: columnMapper.toProtocol, the cursor:
                                         columnMapper.runePosition — internal/server/position.go)
-    internal/server/server.go           getWorkspaceResolved (which resolved journal Hover uses)
+    internal/server/server.go           resolvedForDocument, workspaceResolvedFor (which resolved
+                                        journal Hover uses)
+    internal/workspace/workspace.go     Workspace.Contains
     internal/include/types.go           ResolvedJournal.AllTransactions
     internal/analyzer/account_balance.go CalculateAccountBalances(FromTransactions)
     internal/lsputil/mapper.go          RuneOffsetToUTF16, UTF16OffsetToRuneOffset (on the lines of
@@ -162,8 +164,29 @@ def allTransactions (r : Resolved) : List Transaction :=
   (match r.primary with | some j => j.transactions | none => []) ++
     r.order.flatMap (fileTxs r.files)
 
-/-- `Server.getWorkspaceResolved`: the workspace's resolved journal when there is a workspace
-    and it has one, otherwise whatever publishDiagnostics stored for this URI. -/
+/-- What a handler can see of the workspace: its resolved journal (`Workspace.GetResolved`, not
+    nil) and the path of its root journal (`Workspace.RootJournalPath`). -/
+structure WsView where
+  resolved : Resolved
+  root : Bytes
+deriving Repr, Inhabited
+
+/-- `Workspace.Contains`: the path is the root journal or a key of `resolved.Files`. -/
+def WsView.contains (v : WsView) (path : Bytes) : Bool :=
+  path != [] && (path == v.root || (lookupFile v.resolved.files path).isSome)
+
+/-- `Server.workspaceResolvedFor` (fix-orphan-journal-own-tree.diff): the workspace's resolved
+    journal when the requesting document is the root journal or a file of its include tree;
+    nil for a journal outside that tree, and when there is no workspace or it has no resolved
+    journal (`v = none`). -/
+def workspaceResolvedFor (v : Option WsView) (path : Bytes) : Option Resolved :=
+  match v with
+  | some v => if v.contains path then some v.resolved else none
+  | none => none
+
+/-- `Server.resolvedForDocument`: `ws` is what `workspaceResolvedFor` returned; when that is nil,
+    whatever publishDiagnostics stored for this URI.  (Completion and inline completion keep
+    `getWorkspaceResolved`: the workspace's journal whenever there is one — modelled in C16.) -/
 def workspaceResolved (ws : Option Resolved) (perUri : Option Resolved) : Option Resolved :=
   match ws with
   | some r => some r
@@ -417,5 +440,17 @@ def hoverR (ws perUri : Option Resolved) (doc : Journal) (lns : List HL.Text.Txt
 def hover (ws perUri : Option Resolved) (doc : Journal) (lns : List HL.Text.Txt) (p : LspPos) :
     Option HoverResult :=
   hoverR ws perUri doc lns (runePos lns p)
+
+/-- `Server.Hover` for the document at `path` (`uriToPath` of the request's URI), given what the
+    workspace holds.  The pinned server passed the workspace's resolved journal to `hover`
+    whatever the path (`pinnedHoverAt`). -/
+def hoverAt (v : Option WsView) (perUri : Option Resolved) (path : Bytes) (doc : Journal)
+    (lns : List HL.Text.Txt) (p : LspPos) : Option HoverResult :=
+  hover (workspaceResolvedFor v path) perUri doc lns p
+
+/-- `Server.Hover` before fix-orphan-journal-own-tree.diff. -/
+def pinnedHoverAt (v : Option WsView) (perUri : Option Resolved) (_path : Bytes) (doc : Journal)
+    (lns : List HL.Text.Txt) (p : LspPos) : Option HoverResult :=
+  hover (v.map (·.resolved)) perUri doc lns p
 
 end HL.Hover
